@@ -3,7 +3,7 @@
    OCaml's own; N, positive, nat, ascii, string, comparison stay Coq datatypes. *)
 Require Extraction.
 Require ExtrOcamlBasic.
-From RC Require Import Base.Res Base.Wire Model.Enums Gen.EnumTables Gen.Merge Model.Open Model.Negotiate.
+From RC Require Import Base.Res Base.Wire Model.Enums Gen.EnumTables Gen.Merge Model.Open Model.Negotiate Gen.CmpChain Model.Select.
 Extraction Language OCaml.
 Set Extraction KeepSingleton.
 Extraction "../ocaml/model.ml"
@@ -13,4 +13,6 @@ Extraction "../ocaml/model.ml"
   EnumTables.te_afi_names EnumTables.details_error_code EnumTables.details_table EnumTables.details_names EnumTables.details_sub_keys
   Open.open_caps Negotiate.addpath_intersection Negotiate.session_config Negotiate.pph_session_config
   Negotiate.live_session_config Negotiate.get_addpath Negotiate.rx_addpath Negotiate.addpath_families_vec
+  Select.cmp_route Select.eligible Select.content_eqb Select.route_lt Select.best Select.best_backup
+  Select.best_backup_idx Select.best_backup_generic
   EnumTables.all_enum_widths EnumTables.all_enum_names.
